@@ -540,3 +540,34 @@ func VerifC15_IstioMatchStepKeepsEveryUserRule() {
 	verifrt.Assert(c15Get(after, "http", fmt.Sprintf("%d", m+n)) == "<absent>", "C15.istio.match.ruleCount")
 	verifrt.Cover("C15.istio.match.done")
 }
+
+// VerifC03_CustomRoutedMeansTheStoredObjectCarriesTheStep: the custom provider reports a step as routed ("done", no
+// error) only when the stored object already carries this step — also when API calls fail or an Update meets a
+// conflict (another writer touched the object between the provider's read and its write): a write that did not
+// happen is never "routed".
+func VerifC03_CustomRoutedMeansTheStoredObjectCarriesTheStep() {
+	orig := c15Widget("w1")
+	r := c15Ctl(c15Ref)
+	c := c15Client(orig.DeepCopy())
+	r.Client = c
+	// an earlier step, applied without disturbance
+	s1, _ := c15Traffic("s1")
+	if !c15Ensure(r, s1, "C03.custom.s1") {
+		return
+	}
+	// the step under test, with every call allowed to fail and every Update allowed to conflict
+	s2, w2 := c15Traffic("s2")
+	c.Faults, c.Conflicts = true, true
+	done, err := r.EnsureRoutes(context.TODO(), s2)
+	if err != nil || !done {
+		verifrt.Cover("C03.custom.notYet")
+		return
+	}
+	verifrt.Cover("C03.custom.routed")
+	cw := w2
+	if w2 < 0 {
+		cw = -1
+	}
+	got := c15Stored(c, "w1")
+	verifrt.Assert(got.GetLabels()["plugin/canary-weight"] == fmt.Sprintf("%d", cw), "C03.custom.routedOnlyIfTheStoredObjectCarriesTheStep")
+}
